@@ -40,18 +40,19 @@ func (s gstate) String() string {
 
 // G is one simulated goroutine.
 type G struct {
-	s     *Sched
-	ID    int
-	Name  string
-	Epoch int
-	state gstate
-	dead  bool
-	idle  bool // parked in Quiesce: only chosen when nothing else is runnable
-	wake  chan struct{}
-	site  string // last scheduling site
-	prio  int64  // PCT priority
-	Op    string // harness annotation: the client call in progress
-	last  string // last instrumented source site passed (reports)
+	s       *Sched
+	ID      int
+	Name    string
+	Epoch   int
+	state   gstate
+	dead    bool
+	idle    bool // parked in Quiesce: only chosen when nothing else is runnable
+	starved bool // "slow node": chosen only rarely while others are runnable
+	wake    chan struct{}
+	site    string // last scheduling site
+	prio    int64  // PCT priority
+	Op      string // harness annotation: the client call in progress
+	last    string // last instrumented source site passed (reports)
 }
 
 // Strategy selects how the scheduler picks.
@@ -617,11 +618,18 @@ func (s *Sched) snapshot() []GInfo {
 
 func (s *Sched) pick() *G {
 	// candidates: non-idle parked; idle ones only if nothing else.
-	var cand []*G
+	var cand, slow []*G
 	for _, g := range s.parked {
-		if !g.idle {
+		switch {
+		case g.idle:
+		case g.starved:
+			slow = append(slow, g)
+		default:
 			cand = append(cand, g)
 		}
+	}
+	if len(slow) > 0 && (len(cand) == 0 || s.rng.next()%64 == 0) {
+		cand = slow
 	}
 	if len(cand) == 0 {
 		cand = append(cand, s.parked...)
@@ -767,4 +775,12 @@ func Run(t *testing.T, cfg Config, main func()) (res Result) {
 		res.LastTrace = append([]string(nil), s.trace[n-k:]...)
 	}
 	return res
+}
+
+// Starve marks the calling goroutine as a slow node: while other goroutines
+// are runnable it is chosen only rarely (about 1 decision in 64).
+func Starve(on bool) {
+	if g := Cur(); g != nil {
+		g.starved = on
+	}
 }
